@@ -680,6 +680,16 @@ class Gen:
             x = r.choice(self.data)
             body.append(("assign", x, ("poly", add(var(x), var(names[-1])))))
             self.feat(f"constant-chain-depth-{depth}")
+        if len(self.data) >= 1 and r.random() < 0.1:
+            # an init-only variable defined from the INITIAL value of a variable the loop modifies (kv = 2*x before the loop): it keeps
+            # that initial value for ever, it is not an alias of the changing variable
+            src = r.choice(self.data)
+            if any(st[0] == "assign" and st[1] == src for st in self.init):
+                self.init.append(("assign", "kv", ("poly", r.choice([var(src), mul(num(2), var(src)), add(var(src), num(1))]))))
+                tgt = r.choice(self.data)
+                body.append(("assign", tgt, ("poly", add(var(tgt), var("kv")))))
+                self.data = self.data + ["kv"]
+                self.feat("constant-defined-from-loop-variable")
         if self.data and r.random() < 0.12:
             # a loop constant with a RANDOM initial value (choice / draw in the init block, never assigned in the body): it is a
             # random variable, not a number - E(kr**2) != E(kr)**2 and it is correlated with everything computed from it
